@@ -1,5 +1,7 @@
 package graphql
 
+import "sort"
+
 type SchemaConfig struct {
 	Query        *Object
 	Mutation     *Object
@@ -129,6 +131,7 @@ func NewSchema(config SchemaConfig) (Schema, error) {
 			}
 		}
 	}
+	sortImplementations(schema.implementations)
 
 	schema.buildPossibleTypeMap()
 
@@ -152,6 +155,16 @@ func NewSchema(config SchemaConfig) (Schema, error) {
 	return schema, nil
 }
 
+// sortImplementations orders every implementation list by type name: the
+// lists are collected by ranging over the type map, and their order is
+// visible (introspection possibleTypes, default type resolution).
+func sortImplementations(implementations map[string][]*Object) {
+	for _, impls := range implementations {
+		impls := impls
+		sort.Slice(impls, func(i, j int) bool { return impls[i].Name() < impls[j].Name() })
+	}
+}
+
 //Added Check implementation of interfaces at runtime..
 //Add Implementations at Runtime..
 func (gq *Schema) AddImplementation() error {
@@ -173,6 +186,7 @@ func (gq *Schema) AddImplementation() error {
 			}
 		}
 	}
+	sortImplementations(gq.implementations)
 
 	gq.buildPossibleTypeMap()
 
